@@ -128,7 +128,7 @@ func TestAllShortStrings(t *testing.T) {
 }
 
 func drawInput(t *rapid.T, tg *target) ([]byte, string) {
-	seed := rapid.SampledFrom(tg.seeds).Draw(t, "seed")
+	seed := gen.Pick(t, tg.seeds, "seed")
 	var others [][]byte
 	x := theWorld()
 	others = append(others, x.req1, x.req5, x.resp5, x.respB, x.reqB, x.challenge)
@@ -138,7 +138,7 @@ func drawInput(t *rapid.T, tg *target) ([]byte, string) {
 	if tg.packed > 0 && rapid.Bool().Draw(t, "perArg") {
 		// mutate one argument and re-pack, so that the mutation reaches the function's own parsing
 		args := split(seed, tg.packed)
-		i := rapid.IntRange(0, tg.packed-1).Draw(t, "arg")
+		i := gen.Uniform(t, tg.packed, "arg")
 		var m []byte
 		var class string
 		if i == 0 && tg.name == "type3.Attester.VerifyRequest" && rapid.Bool().Draw(t, "reframe") {
@@ -165,7 +165,7 @@ func mutationTest(t *testing.T, heavy bool, quick, thorough int) {
 		}
 	}
 	rt.Check(t, quick, thorough, func(t *rapid.T) {
-		tg := rapid.SampledFrom(tgs).Draw(t, "target")
+		tg := gen.Pick(t, tgs, "target")
 		in, class := drawInput(t, tg)
 		s.Eval()
 		s.Class(class)
